@@ -2,6 +2,7 @@ import RustCcModel.Proofs.CtlSimp
 import RustCcModel.Proofs.InvReach
 import RustCcModel.Proofs.Reach
 import RustCcModel.Proofs.Exact
+import RustCcModel.Proofs.LifeReach
 /-! # C04 — Rc equivalence: last-owner drop reclaims at once; `strong_count` is exact
 
 Step-level behaviour of `Cc::clone` / `Cc::drop` on the count, and the global invariant
@@ -169,5 +170,18 @@ example : (exWorld.heap 0).boxLive = true ∧ pointersTo exWorld 0 = 2 ∧ (exWo
 example : Reachable exCfg 2 0 0 exWorld :=
   reachable_execTop _ _ _ _ _ _ _
     (reachable_execTop _ _ _ _ _ _ _ .init (by decide) (by decide)) (by decide) (by decide)
+
+/-- **Nothing is left half-destroyed when a panic-free operation has returned**: in every idle world of a panic-free history
+every box that still exists holds an intact value — whatever a `drop` started to destroy (the object whose last owner went
+away, and recursively everything only it owned: each is owned by an `afterDropValue` frame that releases the box before the
+frame below resumes) has been released by the time the stack is empty again. (`Life.np`: a box without an intact value is
+owned by a frame.) -/
+theorem idle_nothing_half_destroyed (c : Cfg) (nH nW nK : Nat) (w : World) (h : ReachableR c nH nW nK w) (hs : w.stack = [])
+    (x : Id) (hb : (w.heap x).boxLive = true) : (w.heap x).valLive = true := by
+  cases hv : (w.heap x).valLive with
+  | true => rfl
+  | false =>
+    have := (reachableR_life c nH nW nK w h).np x (by simp [Obj.lv, hb, hv])
+    rw [hs] at this; simp [ownedDead] at this
 
 end RustCc.C04
